@@ -1,0 +1,67 @@
+//go:build verif
+
+package policer
+
+// Machine-checked contracts (govc, see /verif/DESIGN.md). Comment-only file.
+
+// ---- C26 (replica rules): processNodes may leave needLocalCopy false ("the local copy is
+// not needed for this rule") with the shortage driven to zero only if every unit of the
+// required number S0 was covered by a node whose header was actually read in this call;
+// nodes under maintenance are counted separately (uncheckedCopies) and, if there are any,
+// the local copy is kept. confirmed counts headObject calls that returned nil.
+// S0 is the rule's replica number, or the number of nodes for LOCK/LINK objects.
+
+//@ ghost field confirmed(x int) uint32
+//@ callrule header_read_confirms_holder in (*Policer).processNodes
+//@   property C26
+//@   callee *).headObject
+//@   pureeffect
+//@   assigns confirmed
+//@   defines confirmed(0) == old(confirmed(0)) + ite(err == nil, 1, 0)
+
+// the helpers called by processNodes work on the node cache, the metrics and the network
+// view; they are assumed not to touch the placement context or the function's variables
+//@ callrule process_nodes_helpers_are_pure in (*Policer).processNodes
+//@   property C26
+//@   callee (context.Context).Done, *).getHeadTimeout, *).IsLocalNodePublicKey, *).PublicKey, *).IsMaintenance, (*policer.nodeCache).*, context.WithTimeout, dynamic:*, netmap.StringifyPublicKey, (*atomic.Bool).Store, *).SetPolicerConsistency, *).SetPolicerOptimalPlacement, (*policer.Policer).tryToReplicate
+//@   pureeffect
+
+//@ pure func requiredCopies(t int32, n uint32, s uint32) uint32 = ite(t == 3 || t == 4, n, s)
+
+//@ func (*Policer).processNodes
+//@   property C26
+//@   mode bv
+//@   valid plc != nil && confirmed(0) == 0 && len(nodes) < 4294967296 && !ctxCancelSeen(0)
+//@   loop 1 invariant !ctxCancelSeen(0)
+//@   loop 1 invariant 0 <= uncheckedCopies && wide(shortage) + wide(confirmed(0)) + wide(uncheckedCopies) <= wide(requiredCopies(int32(old(plc.object.Type)), uint32(len(nodes)), old(shortage)))
+//@   loop 1 invariant !plc.needLocalCopy ==> wide(shortage) + wide(confirmed(0)) + wide(uncheckedCopies) == wide(requiredCopies(int32(old(plc.object.Type)), uint32(len(nodes)), old(shortage)))
+//@   ensures [local_copy_released_only_with_enough_confirmed_holders] !ctxCancelSeen(0) && !plc.needLocalCopy && shortage == 0 ==> wide(confirmed(0)) + wide(uncheckedCopies) == wide(requiredCopies(int32(old(plc.object.Type)), uint32(len(nodes)), old(shortage)))
+//@   ensures [copies_on_maintenance_nodes_keep_the_local_copy] !ctxCancelSeen(0) && !plc.needLocalCopy && shortage == 0 ==> uncheckedCopies == 0
+
+// ---- C26 (decision): the local copy is dropped only when no rule asked to keep it.
+//@ callrule drop_only_when_no_rule_needs_the_local_copy in (*Policer).processObject
+//@   property C26
+//@   callee (*policer.Policer).dropRedundantLocalObject
+//@   requires [no_rule_needs_local_copy] !c.needLocalCopy
+//@ callrule decision_reads_are_pure in (*Policer).processObject
+//@   property C26
+//@   callee *).IsLocalNodeInNetmap, (*policer.nodeCache).atLeastOneHolder, (policer.nodeCache).atLeastOneHolder
+//@   pureeffect
+
+// ---- C26 (EC parts): the local EC part is dropped only after its header was read from a
+// more optimal node, or after it was successfully replicated to one; a node answering
+// "under maintenance" never is such a confirmation.
+//@ ghost pred partHeaderReadFromOtherNode() bool
+//@ ghost pred partReplicatedToOtherNode() bool
+//@ callrule ec_header_fact in (*Policer).processECPartByRule
+//@   property C26
+//@   callee *).headObject
+//@   defines err == nil ==> partHeaderReadFromOtherNode()
+//@ callrule ec_replication_fact in (*Policer).processECPartByRule
+//@   property C26
+//@   callee (*policer.Policer).tryToReplicate
+//@   defines repRes.done ==> partReplicatedToOtherNode()
+//@ callrule ec_drop_only_when_confirmed_elsewhere in (*Policer).processECPartByRule
+//@   property C26
+//@   callee (*policer.Policer).dropRedundantLocalObject
+//@   requires [part_confirmed_on_another_node] partHeaderReadFromOtherNode() || partReplicatedToOtherNode()
